@@ -13,7 +13,7 @@ import numpy as np
 from . import c18_funcs as F
 from . import common
 from .c18_monitor import MON
-from .c18_replay import Env, KernelError, Replayer
+from .c18_replay import Env, KernelError, LiteralTypeMismatch, Replayer
 
 K = 3
 BF_DOMAIN = "vf.bf"
@@ -230,6 +230,8 @@ class Gen:
         for env in self.envs():
             try:
                 self.rep.eval_entry(e, env, self.attr_binding)
+            except LiteralTypeMismatch as lm:
+                raise BuildRaised("literal_dtype", lm) from lm
             except KernelError as ke:
                 raise Invalid(f"{e.get('op') or e.get('fn_name')}: {ke}") from ke
 
